@@ -70,10 +70,23 @@ def run_impl(case):
             if f.get("clean"):
                 n = f"test_{chr(97 + i)}.py"
                 files[n] = black.format_str(files[n], mode=black.FileMode(line_length=ll))
+    sub = "started_here" if case.get("outside") else None
     r = impl_pytest.run_session(files, ["--inline-snapshot=" + ",".join(case["flags"])], {}, pyproject=(f"[tool.black]\nline-length = {ll}\n" if ll else ""),
-                                cwd_sub="started_here" if case.get("outside") else None)
+                                cwd_sub=sub, keep=True)
+    second = None
+    try:
+        if {"create", "fix"} <= set(case["flags"]) and r["dir"]:
+            # C08: the same tests again, nothing approved: they pass (every generated name is importable, every value holds)
+            import pathlib
+            top = pathlib.Path(r["dir"]).parent if sub else pathlib.Path(r["dir"])
+            r2 = impl_pytest.run_session({}, [], {}, pyproject=None, cwd_sub=sub, pre_existing_dir=top)
+            second = {"rc": r2["rc"], "outcomes": r2["outcomes"], "tail": (r2["stdout"][-600:] if r2["rc"] else "")}
+    finally:
+        if r.get("dir"):
+            import pathlib
+            common.rmtree(pathlib.Path(r["dir"]).parent if sub else pathlib.Path(r["dir"]))
     internal = "INTERNALERROR" in r["stdout"]
-    return {"rc": r["rc"], "traceback": "Traceback" in r["stderr"] or "Error" in r["stderr"][-400:] or internal,
+    return {"second": second, "rc": r["rc"], "traceback": "Traceback" in r["stderr"] or "Error" in r["stderr"][-400:] or internal,
             "stderr": (r["stdout"][-700:] if internal else r["stderr"][-500:]),
             "files": {n: {"old": files[n], "new": r["files"].get(n, b"").decode("utf-8", "replace")} for n in files}}
 
@@ -86,6 +99,13 @@ def oracle(case, obs):
     fails = []
     if obs["traceback"]:
         fails.append(("C18", "finish_total", f"flags {case['flags']}: {obs['stderr'][-300:]}"))
+    sec = obs.get("second")
+    if sec and not obs["traceback"] and sec["rc"] != 0:
+        bad = sorted(k for k, v in sec["outcomes"].items() if v in ("failed", "error"))
+        d = f"flags {case['flags']}: after the rewriting run the same tests do not pass (exit status {sec['rc']}, failing {bad}): {sec['tail'][-300:]}"
+        fails.append(("C08", "rerun_succeeds", d))
+        fails.append(("C02", "fix_repairs", d))
+        fails.append(("C03", "import_added_when_needed", d))
     for name, fo in obs["files"].items():
         old, new = fo["old"], fo["new"]
         if old == new:
